@@ -263,6 +263,25 @@ theorem stop_releases_every_response (cfg : Cfg) (ops : List Op) (r : Nat) :
     rw [hx'] at hf
     simpa [hfr] using hf
 
+/-- Upgraded connections and their slot: the 101 reply hands the connection over (`urh`), the response
+    reference is given back, and the connection keeps its slot (it moves to the suspended list, which
+    `limits_hold` counts) until the application closes the session.  If the application closes it inside
+    its upgrade handler (`Beh.upgradeClose`), the connection is disposed of in the same settled round
+    (disposition `clean`: cleanup list → counter and per-address counter decremented, socket closed,
+    by `run_inv` / `lifecycle_balance`); otherwise it is suspended and `Op.upClose` or `stop` disposes of it. -/
+theorem upgrade_close_timing (R : RespTab) (c : Conn) (r : Nat) (cl : Bool)
+    (hc : c.clientClosed = false) (hu : isUpg R r = true) :
+    (runReply R c r cl).2.2.1 = (if c.inClose then Disp.clean else Disp.susp) ∧
+    (runReply R c r cl).2.1.urh = true ∧ (runReply R c r cl).2.1.resp = none ∧
+    ((runReply R c r cl).2.1.wasClosed = true ↔ (c.wasClosed = true ∨ c.inClose = true)) := by
+  unfold runReply
+  simp only [hc, hu, if_true, Bool.false_eq_true, if_false]
+  refine ⟨trivial, trivial, ?_, ?_⟩
+  · unfold closeConn; split
+    · rfl
+    · rename_i h; exact h
+  · unfold closeConn; split <;> simp
+
 /-- A failing accept()/accept4() on the listen socket (EMFILE, ENFILE, ECONNABORTED, EAGAIN, …:
     MHD_accept_connection returns before internal_add_connection) changes nothing: no counter, no
     per-address counter, no list — capacity cannot be lost there. -/
@@ -379,6 +398,21 @@ example :
     (r1.1.resps 1).map (·.rc) = some 2 ∧ r1.1.susp.map (·.resp) = [some 1] ∧ r1.2.count (.queued 2 3 false) = 1 ∧
     r1.2.count (.connClose 1) = 1 ∧ r1.2.count (.connClose 2) = 1 ∧
     (r2.1.resps 1).map (·.rc) = some 1 ∧ r2.2.count (.connClose 0) = 1 ∧ r2.1.connections = 0 ∧ r2.1.fault = none := by
+  decide
+
+/-- Non-vacuity of `upgrade_close_timing` at history level (limit 3, one connection per address): connection 0
+    closes its upgraded session inside the handler — after the round it is gone, its slot and address are free
+    again, socket closed once; connection 1 is upgraded and stays (slot kept) until `upClose`; connection 2 is
+    upgraded and never closed before `stop`, which closes it.  Afterwards everything is zero. -/
+example :
+    let ops : List Op := [.respCreate 3 false false true, .arrive 1 true true, .arrive 2 true true, .arrive 3 true true,
+                          .req 0 (.upgradeClose 3 []), .req 1 (.reply 3 false []), .req 2 (.reply 3 false []), .round]
+    let r1 := run (St.init demoCfg) ops
+    let r2 := run (St.init demoCfg) (ops ++ [.upClose 1, .round])
+    let r3 := run (St.init demoCfg) (ops ++ [.upClose 1, .round, .stop])
+    r1.1.connections = 2 ∧ r1.1.ipCount 1 = 0 ∧ r1.1.susp.length = 2 ∧ r1.2.count (.fdClose 0) = 1 ∧ r1.2.count (.upgraded 0) = 1 ∧
+    r2.1.connections = 1 ∧ r2.2.count (.fdClose 1) = 1 ∧
+    r3.1.connections = 0 ∧ r3.2.count (.fdClose 2) = 1 ∧ r3.2.count (.connClose 2) = 1 ∧ (∀ a, a < 5 → r3.1.ipCount a = 0) ∧ r3.1.fault = none := by
   decide
 
 end Mhd.C09
